@@ -5,7 +5,7 @@ from __future__ import annotations
 from ..analyses.relang import Lang, Unsupported, complement, equivalent, inter, minimise, union
 from ..analyses.strlang import StrLang, build_alphabet, module_regexes, module_strings
 from ..model import AnalysisError
-from ..report import Cx, Ob, describe, obligation
+from ..report import Cx, Ob, describe, obligation, thorough_extra
 
 describe(
     "C20",
@@ -96,3 +96,58 @@ def d2(cx: Cx, ob: Ob) -> None:
 @obligation("C20-D3", "L_true(is_w3c_curie) = CURIE: no brackets, not blank, and ([NCName] ':' REF split at the first colon, or a colon-free REF)", floor=1)
 def d3(cx: Cx, ob: Ob) -> None:
     compare(cx, ob, "is_w3c_curie", "CURIE")
+
+
+@thorough_extra("C20")
+def validate_regex_model():
+    """Validate the ANALYSER'S model of the regex engine (not the code under test).
+
+    For every pattern constant of curies.w3c and every method (match / fullmatch / search) the
+    automaton built by RELANG is compared with stdlib ``re`` on all strings up to length 4 over one
+    representative per alphabet class.  ``curies`` is not imported; only ``re`` runs, on pattern
+    strings read from the source text.
+    """
+    import itertools
+    import re
+    import time
+
+    from ..model import Model
+
+    t0 = time.time()
+    model = Model()
+    cx = Cx(model, "thorough")
+    ob = Ob("C20-model", "model validation")
+    mod, sl = setup(cx, ob)
+    from ..analyses.strlang import module_regexes, module_strings
+
+    pats = {p for p, _ in module_regexes(model, mod).values()} | {s for n, s in module_strings(model, mod).items() if n.endswith("PATTERN")}
+    pats.add(r"[A-Za-z_][A-Za-z0-9._\-]*")
+    reps = [chr(c) for c in sl.alpha.reps]
+    n = bad = 0
+    rows = []
+    maxlen = 4 if sl.alpha.n <= 16 else 3
+    for pat in sorted(pats):
+        try:
+            rx = re.compile(pat)
+        except re.error:
+            continue
+        for meth in ("match", "fullmatch", "search"):
+            try:
+                d = sl.L.regex(pat, meth)
+            except Unsupported as e:
+                rows.append({"pattern": pat, "method": meth, "status": f"unsupported: {e}"})
+                continue
+            mism = 0
+            for L in range(0, maxlen + 1):
+                for tup in itertools.product(range(sl.alpha.n), repeat=L):
+                    s = "".join(reps[c] for c in tup)
+                    n += 1
+                    if d.accepts(tup) != bool(getattr(rx, meth)(s)):
+                        mism += 1
+                        if mism <= 3:
+                            print(f"ANALYSIS-ERROR property=C20 obligation=regex-model reason=model of {meth}({pat!r}) disagrees with stdlib re on {s!r}")
+            bad += mism
+            rows.append({"pattern": pat, "method": meth, "dfa_states": d.n, "mismatches": mism})
+    extra = {"regex_model_validation": {"strings_compared": n, "mismatches": bad, "alphabet_classes": sl.alpha.n, "max_length": maxlen, "rows": rows, "wall_s": round(time.time() - t0, 2)}}
+    print(f"regex model validation: {n} (pattern, method, string) comparisons against stdlib re, {bad} mismatches")
+    return (2 if bad else 0), extra
